@@ -184,7 +184,7 @@ PROPS["C07"] = dict(
                "tip_height = last height served, stable part then unstable part, one header per height of the effective range when wf_headers holds); linking of consecutive headers follows from path-ness of best_path (C02) and is not separately proved",
     explanation="R8 slice of get_block_headers_in_range (index arithmetic), whole verify_and_return_effective_range, second extraction of the ingestion loop with wf_headers.",
     unverified_links=[
-        "the CONTENTS produced by the two materialisation pipelines of get_block_headers_internal (range(..).map(..).collect(), consensus_encode): uninterpreted; their lengths are assumed from the store's domain / the verified index slice",
+        "the CONTENTS produced by the two materialisation pipelines of get_block_headers_internal (range(..).map(..).collect(), consensus_encode): uninterpreted there; UnstableBlocks::get_block_headers_in_range itself IS verified as a whole (the headers of the served branch at exactly the requested indices, in order); the stable side (BlockHeaderStore over stable maps) is not",
         "BlockHeaderStore::{insert, get_block_headers_in_range} over StableBTreeMap (assumed map semantics)",
         "upgrades",
     ],
